@@ -7,7 +7,7 @@
    Grammar: Json/Grammar.v  sval h v  (structural JSON value needing at most h FSM frames),
             strict d v (RFC 8259 value of nesting depth at most d). *)
 From Coq Require Import NArith Bool List Arith.
-From SV.Json Require Import Chars StrScan NumScan Fsm Grammar StrScanProofs NumScanProofs FsmProofs Lang FsmSound FsmComplete Wrappers Fast FastProofs VsProofs BitTrick.
+From SV.Json Require Import Chars StrScan NumScan Fsm Grammar StrScanProofs NumScanProofs FsmProofs Lang FsmSound FsmComplete Wrappers Fast FastProofs VsProofs GenComplete BitTrick.
 Import ListNotations.
 Open Scope N_scope.
 
@@ -191,6 +191,23 @@ Proof. exact skip_one_vs_sound. Qed.
 Print Assumptions C02_fsm_vs_sound.
 Example C02_fsm_vs_sound_nonvacuous : skip_one_vs [91; 34; 97; 34; 93] = Ok ([91; 34; 97; 34; 93], []).
 Proof. vm_compute. reflexivity. Qed.
+
+(* completeness of the string-validating scanner: a strict RFC 8259 string body (no control characters, valid
+   escapes) is accepted with exactly its extent, wherever the vector rounds fall, for every fuel *)
+Theorem C02_advance_string_validate_complete : forall fuel b r, strict_body b ->
+  advance_string_validate fuel (b ++ 34 :: r) = SOk r.
+Proof. exact advance_string_validate_complete. Qed.
+Print Assumptions C02_advance_string_validate_complete.
+Example C02_advance_string_validate_complete_nonvacuous : strict_body [97; 92; 110; 92; 117; 48; 48; 52; 49].
+Proof. apply stb_char; [discriminate|discriminate|discriminate|]. apply stb_esc; [reflexivity|]. apply stb_u; try reflexivity. constructor. Qed.
+
+(* ... hence every strict RFC 8259 document of nesting depth < MAX_RECURSE is accepted under MASK_VALIDATE_STRING
+   (ConfigStd / ValidateString) with exactly its span: nothing encoding/json.Valid accepts (UTF-8 aside) is rejected *)
+Theorem C02_fsm_vs_complete_strict : forall d w v r,
+  all_ws w -> strict d v -> (d < MAX_RECURSE)%nat -> (snumber v -> numclass (hd0 r) = false) ->
+  skip_one_vs (w ++ v ++ r) = Ok (v ++ r, r).
+Proof. exact skip_one_vs_complete_strict. Qed.
+Print Assumptions C02_fsm_vs_complete_strict.
 
 (* ---- the backslash-run bit trick, 14-bit words ------------------------------------------------------------ *)
 
